@@ -1,3 +1,4 @@
 -- Root of the LC library: every theorem module that must check.
 import LC.Props.C02
+import LC.Props.C03Lines
 import LC.Props.C20
